@@ -66,3 +66,36 @@ Proof. vm_compute. repeat split; reflexivity. Qed.
 Example C19_vga_driverInit_establishes_wf_nonvacuous :
   1 <= vw (mkVga 80 25) /\ 1 <= vh (mkVga 80 25) /\ vw (mkVga 80 25) * vh (mkVga 80 25) * 2 < two32.
 Proof. vm_compute. repeat split; discriminate || reflexivity. Qed.
+
+(** audit: both hypotheses of C19_vesa_driverInit_establishes_flen TOGETHER at the 1024x768x32 console with pitch 4160:
+    a framebuffer [m'] of exactly the length DriverInit gives its slice exists, and the theorem's conclusion at it *)
+Definition c0 : vesa := new_vesa 1024 768 32 4160 (mkColorInfo 16 8 8 8 0 8) 0 (fun _ => (0, 0, 0)).
+Definition m0 : fbuf := fresh 3194880 (fun _ => 0).
+Example C19_vesa_driverInit_establishes_flen_real_input :
+  ph c0 * pitch c0 < two32 /\
+  flen m0 = go_console_VesaFbConsole_DriverInit_fbLen (VesaTrans.to_gs c0 0xe0000000 no_fb) /\
+  flen m0 = ph c0 * pitch c0.
+Proof.
+  assert (H1 : ph c0 * pitch c0 < two32) by reflexivity.
+  assert (H2 : flen m0 = go_console_VesaFbConsole_DriverInit_fbLen (VesaTrans.to_gs c0 0xe0000000 no_fb)) by (vm_compute; reflexivity).
+  split; [exact H1|]. split; [exact H2|].
+  exact (C19_vesa_driverInit_establishes_flen c0 0xe0000000 no_fb m0 H1 H2).
+Qed.
+
+(** audit: all four hypotheses of C19_vga_driverInit_establishes_wf TOGETHER at the 80x25 text mode: a 2000-cell
+    framebuffer, hence [vga_wf] *)
+Example C19_vga_driverInit_establishes_wf_real_input : vga_wf (mkVga 80 25) (fresh 2000 (fun _ => 0)).
+Proof.
+  apply (C19_vga_driverInit_establishes_wf (mkVga 80 25) 0xb8000 no_fb (fresh 2000 (fun _ => 0))).
+  - vm_compute; discriminate.
+  - vm_compute; discriminate.
+  - reflexivity.
+  - vm_compute; reflexivity.
+Qed.
+
+(** audit: the hypothesis of C19_vesa_map_size_wraps (height * pitch >= 2^32) is satisfiable only by geometries no video
+    mode has - e.g. 65536 rows of 65536 bytes, where the mapped size is 0 *)
+Example C19_vesa_map_size_wraps_nonvacuous :
+  let c := new_vesa 16384 65536 32 65536 (mkColorInfo 16 8 8 8 0 8) 0 (fun _ => (0, 0, 0)) in
+  two32 <= ph c * pitch c /\ vesa_map_size c = 0.
+Proof. vm_compute. split; [discriminate|reflexivity]. Qed.
